@@ -95,3 +95,102 @@ class StdVector(Plugin):
     def field_dtor(self, unit, f, ct, target):
         cn = ct.replace('const ', '').strip()[len('struct '):]
         return ['%s_destroy(&%s);' % (cn, target)]
+
+
+class StdFunction(Plugin):
+    """std::function<Sig>: struct v_function {engaged, target}; invocation = call of a callback stub
+    v_fn_call__<sig>(f, args...) whose contract/body the spec supplies (what the user callback may do)."""
+    def sig_of(self, qt):
+        qt = canon_type(qt)
+        m = re.match(r'^std::function<(.*)>$', qt)
+        return m.group(1).strip() if m else None
+
+    def node_sig(self, node):
+        t = node.get('type', {})
+        for qt in (t.get('desugaredQualType'), t.get('qualType')):
+            if qt:
+                s = self.sig_of(re.sub(r'\s*\*$', '', qt.replace('const ', '').strip()))
+                if s: return s
+        return None
+
+    def type_for(self, name, unit):
+        if self.sig_of(name): return 'struct v_function'
+        return None
+
+    def is_model_type(self, ct):
+        return ct.replace('const ', '').strip() == 'struct v_function'
+
+    def stub_name(self, sig):
+        return 'v_fn_call__' + re.sub(r'_+', '_', re.sub(r'\W', '_', sig.replace('*', 'p').replace('&', 'r'))).strip('_')
+
+    def operator_call(self, unit, n, rd, args):
+        if not args: return None
+        sig = self.node_sig(args[0])
+        if sig is None: return None
+        op = rd.get('name')
+        f = unit.addr_of(args[0])
+        if op == 'operator()':
+            unit.count_call(self.stub_name(sig))
+            _, ptypes, _ = fn_param_types(sig)
+            a = [unit.bind_arg(ptypes[i] if i < len(ptypes) else None, x) for i, x in enumerate(args[1:])]
+            return '%s(%s)' % (self.stub_name(sig), ', '.join([f] + a))
+        if op == 'operator=':
+            rhs = unit.strip_tmp(args[1])
+            while rhs['kind'] in ('ImplicitCastExpr', 'CXXConstructExpr', 'CXXFunctionalCastExpr') and unit.kids(rhs) and self.node_sig(rhs) and not (rhs['kind'] == 'ImplicitCastExpr' and rhs.get('castKind') == 'LValueToRValue'):
+                inner = unit.strip_tmp(unit.kids(rhs)[0])
+                if inner['kind'] in ('CXXNullPtrLiteralExpr', 'GNUNullExpr') or self.node_sig(inner): rhs = inner
+                else: break
+            if rhs['kind'] in ('CXXNullPtrLiteralExpr', 'GNUNullExpr') or (rhs['kind'] == 'ImplicitCastExpr' and rhs.get('castKind') == 'NullToPointer'):
+                return '(*v_function_reset(%s))' % f
+            if self.node_sig(rhs):
+                return '(*v_function_assign(%s, %s))' % (f, unit.addr_of(rhs))
+            r = self.assign_other(unit, f, rhs)
+            if r: return r
+            raise Unsupported('std::function assigned from %s (in %s)' % (rhs['kind'], unit.cur))
+        if op in ('operator==', 'operator!='):
+            other = unit.strip_tmp(args[1])
+            return ('(!v_function_engaged(%s))' if op == 'operator==' else '(v_function_engaged(%s))') % f
+        return None
+
+    def assign_other(self, unit, f, rhs):
+        return None
+
+    def member_call(self, unit, n, me, base, args):
+        sig = self.node_sig(base)
+        if sig is None: return None
+        b = unit.expr(base)
+        f = b if me.get('isArrow') else unit.addr_text(b)
+        if me['name'].startswith('operator bool'):
+            return 'v_function_engaged(%s)' % f
+        if me['name'] == 'swap':
+            return 'v_function_swap(%s, %s)' % (f, unit.addr_of(args[0]))
+        raise Unsupported('std::function::%s (in %s)' % (me['name'], unit.cur))
+
+    def construct_expr(self, unit, n):
+        if self.node_sig(n) is None: return None
+        ks = unit.kids(n)
+        if not ks: return '((struct v_function){0, 0})'
+        inner = unit.strip_tmp(ks[0])
+        if self.node_sig(inner): return '(*%s)' % unit.addr_of(inner)      # copy
+        if inner['kind'] in ('CXXNullPtrLiteralExpr', 'GNUNullExpr'): return '((struct v_function){0, 0})'
+        raise Unsupported('std::function constructed from %s (in %s)' % (inner['kind'], unit.cur))
+
+    def field_init(self, unit, f, ct, target, e):
+        if e is None: return ['v_function_init(&%s);' % target]
+        se = unit.strip_tmp(e)
+        if se['kind'] == 'CXXConstructExpr' and not unit.kids(se): return ['v_function_init(&%s);' % target]
+        return ['%s = %s;' % (target, unit.expr(e))]
+
+    def local_object(self, unit, v, ct, name, ks, p):
+        unit.w(p + 'struct v_function %s;' % name)
+        if not ks: unit.w(p + 'v_function_init(&%s);' % name)
+        else: unit.w(p + '%s = %s;' % (name, unit.expr(ks[0])))
+
+
+class Syscalls(Plugin):
+    """libc system calls -> v_sys_<name> stubs (models/sys_model.h): any legal result"""
+    NAMES = {'close', 'read', 'write', 'readv', 'writev', 'fcntl', 'open', 'pipe', 'eventfd', 'epoll_ctl', 'epoll_wait'}
+    def free_call(self, unit, name, rd, args, n):
+        if name in self.NAMES:
+            return 'v_sys_%s(%s)' % (name, ', '.join(unit.expr(a) for a in args))
+        return None
